@@ -209,7 +209,7 @@ def contains(t, pred) -> bool:
 
 
 def subterms(t):
-    if isinstance(t, tuple):
+    if isinstance(t, tuple) and t:
         yield t
         for x in t:
             if isinstance(x, tuple):
